@@ -674,6 +674,23 @@ pub fn lexeme_corpus(thorough: bool) -> Vec<String> {
         }
         cur = next;
     }
+    // long invalid fragments around power-of-two lengths, with multi-byte characters at every alignment: an
+    // error that carries a long piece of the input is where clipping, buffering and offset arithmetic slip
+    let lens: &[usize] = if thorough { &[100, 255, 256, 257, 511, 512, 513, 1023, 1024, 1025, 2047, 2048, 2049, 4096, 65_536] }
+        else { &[255, 256, 511, 512, 1023, 1024, 1025, 2048, 4097] };
+    for &n in lens {
+        for shift in 0..3usize {
+            let pad = "x".repeat(shift);
+            let body = "\u{e9}".repeat(n);
+            t.push(format!("\"{pad}{body}"));                                  // unterminated string
+            t.push(format!("[1, \"{pad}{body}"));
+            t.push(format!("{{\"a\":1}}\n{{\"{pad}b\":\"{body}\"}}"));           // a second root value
+            t.push(format!("{pad}{body}"));                                     // a run of invalid characters
+            t.push(format!("[{}{pad}\u{e9}]", "a".repeat(n)));                    // a long invalid word
+            t.push(format!("\"{pad}{body}\\q\""));                             // a bad escape after a long body
+            t.push(format!("{{\"{pad}{body}\" 1}}"));                            // missing colon after a long name
+        }
+    }
     let printable: Vec<char> = (0x20u32..0x7f).filter_map(char::from_u32).collect();
     let seeds = [
         "true", "false", "null", "[true,false,null]",
